@@ -452,6 +452,8 @@ func TestCheck(t *testing.T) {
 					continue
 				}
 				if run.Expired() {
+					lab.Close() // leave the bubble without blocked engine goroutines
+					synctest.Wait()
 					return
 				}
 				// reference: the engine without @defer, and R1
